@@ -46,6 +46,10 @@ claimed = {
          "Decides that the formulas that combine roots are the protocol's and identical in both backends (contract commitment, class leaf, state commitment incl. the 0.14.0 rule and domain constants), that every trie role is built with its hash family in both backends and in both temp-trie backends, that Update/Revert/Finalise authenticate the root before and after mutating, that trie2 never returns a structurally modified node with a stale cached hash, that the legacy trie's dirty set is only cleared after recomputation, and that committed (incl. deleted) nodes always reach the caller. It does not decide that either trie computes the Merkle-Patricia root of its key/value set, nor order/restart independence.",
          "trusted: go/types, go/ssa; formula recognition is by canonical term: a formula rewritten beyond the recognised form fails and must be re-confirmed by hand",
          "DESIGN.md §5 C01"),
+ "C15": ("sibling cross-check of the backend implementations: sentinel translation (must-hold DNF at returns), dominance of commit-on-nil, guarded upper bounds, go/types method-set checks, own-writes-first rule for the in-memory batch, single critical section per reader",
+         "Decides the conventions that are visible in code shape and on which callers rely: absent keys are reported identically by every Has/Get of DB/batch/snapshot in both Pebble backends; every Helper commits only on success; every NewIterator applies UpperBound(prefix) iff asked; all backend types implement the interfaces they are used as; BufferBatch replays deletes as deletes; the in-memory batch consults its own pending writes before the committed data; in-memory readers use one critical section. Behavioural equivalence of iterators, range deletes, snapshot isolation and batch ordering across backends is differential and not decided.",
+         "trusted: go/types, go/ssa; Pebble itself is outside the analysed code",
+         "DESIGN.md §5 C15"),
 }
 pending = {}  # id -> reason (properties not claimed)
 props = [json.loads(l) for l in open(os.path.join(V, "properties.jsonl"))]
